@@ -144,6 +144,7 @@ func C09(c *core.Ctx) {
 		checkWorkersStateless(c, "R7", tabs, "pkg/updown")
 	}
 	checkArrivalOrderIndependence(c, "R5/reorder", "updown.reorderRecords")
+	checkMapRanges(c, "R8/map-order", "pkg/updown") // output that varies from run to run cannot be byte-identical across the four input combinations
 	c09Inputs(c)
 	c09Order(c)
 }
@@ -358,6 +359,10 @@ func checkCSVValidation(c *core.Ctx, rule string) {
 			{"valid file", [][]string{header, {"a", "A2C|A5G", "7-9|12", "2", "4"}}, false},
 			{"non-numeric ambiguity count", [][]string{header, {"a", "", "", "0", "x"}}, true},
 			{"non-numeric range", [][]string{header, {"a", "", "3-x", "0", "1"}}, true},
+			{"non-numeric range start", [][]string{header, {"a", "", "x-5", "0", "5"}}, true},
+			{"missing range start", [][]string{header, {"a", "", "-5", "0", "5"}}, true},
+			{"non-numeric range start in a later row", [][]string{header, {"a", "", "1-2", "0", "2"}, {"b", "", "4|q-9", "0", "3"}}, true},
+			{"non-numeric single ambiguity", [][]string{header, {"a", "", "7|y", "0", "2"}}, true},
 			{"non-numeric SNP position", [][]string{header, {"a", "AxC", "", "1", "0"}}, true},
 		} {
 			got, isErr, done, crash, und := runCSVReader(c, rd, tc.recs)
